@@ -14,8 +14,9 @@ int g_rel_invoked;  // commits whose handle release has begun
 int g_rel_returned;  // commits whose handle release has completed
 char g_writer_token;  // ghost object for the writer-section windows
 
-enum WOp { COMMIT, CANCEL, MOVE_COMMIT, MOVE_CANCEL };
-const char* won[] = {"commit", "cancel", "move+commit", "move+cancel"};
+enum WOp { COMMIT, CANCEL, MOVE_COMMIT, MOVE_CANCEL, UNWIND_COMMIT };
+struct UserError {};
+const char* won[] = {"commit", "cancel", "move+commit", "move+cancel", "user code throws: released by unwinding"};
 struct Reader {
     int snaps;
     int form;
@@ -100,6 +101,18 @@ void body(const Prog& p)
                             h2.reset();  // release through the moved-to handle
                             stamp();
                             ++g_rel_returned;
+                        } else if (op == UNWIND_COMMIT) {
+                            // user code throws while holding the handle: stack unwinding releases (= commits) it
+                            stamp();
+                            ++g_rel_invoked;
+                            try {
+                                COW::handle h2(std::move(h));
+                                throw UserError();
+                            }
+                            catch (const UserError&) {
+                            }
+                            stamp();
+                            ++g_rel_returned;
                         } else {
                             stamp();
                             ++g_rel_invoked;
@@ -180,18 +193,20 @@ void make_items(const Options& o, std::vector<Item>& items)
     auto wseq = hx::sequences(thorough ? 4 : 3, 2);
     // one writer (all op sequences), one reader
     for (auto& w : wseq)
-        for (int snaps = 1; snaps <= 2; snaps++) add({w}, {Reader{snaps, form(), snaps == 2}}, 2, 3);
+        for (int snaps = 1; snaps <= 2; snaps++) add({w}, {Reader{snaps, form(), snaps == 2}}, 3, 3);
     // two writers, one op each, with and without a reader
     for (int a = 0; a < 3; a++)
         for (int b = a; b < 3; b++) {
-            add({{a}, {b}}, {}, 2, 4);
-            add({{a}, {b}}, {Reader{2, form(), true}}, 2, 3);
+            add({{a}, {b}}, {}, 3, 4);
+            add({{a}, {b}}, {Reader{2, form(), true}}, 3, 3);
         }
-    add({{MOVE_CANCEL}, {COMMIT}}, {Reader{1, 0, false}}, 2, 3);
-    add({{MOVE_CANCEL, COMMIT}}, {Reader{2, 1, true}}, 2, 3);
+    add({{MOVE_CANCEL}, {COMMIT}}, {Reader{1, 0, false}}, 3, 3);
+    add({{MOVE_CANCEL, COMMIT}}, {Reader{2, 1, true}}, 3, 3);
+    add({{UNWIND_COMMIT}, {COMMIT}}, {Reader{2, 0, true}}, 3, 3);
+    add({{UNWIND_COMMIT, UNWIND_COMMIT}}, {Reader{2, 1, false}}, 3, 3);
     // two readers against a committing writer
-    add({{COMMIT}}, {Reader{1, 0, false}, Reader{2, 1, true}}, 2, 3);
-    add({{COMMIT, COMMIT}}, {Reader{2, 2, true}, Reader{1, 3, false}}, 2, 3);
+    add({{COMMIT}}, {Reader{1, 0, false}, Reader{2, 1, true}}, 3, 3);
+    add({{COMMIT, COMMIT}}, {Reader{2, 2, true}, Reader{1, 3, false}}, 3, 3);
     if (thorough) {
         // systematic: every pair of writer op sequences (<= 2 ops each) x reader kinds
         std::vector<std::vector<Reader>> rsets = {{}, {Reader{1, 0, false}}, {Reader{2, 1, true}}, {Reader{2, 2, false}},
